@@ -376,7 +376,10 @@ theorem calibrate_shift (evs : List MEv) :
     | error e => simp [Except.map, bind, Except.bind]
     | ok a =>
       obtain ⟨col0, send, recv⟩ := a
-      simp only [Except.map, bind, Except.bind, endsShift, zipWith_sub_shift]
+      simp only [Except.map, bind, Except.bind, endsShift, zipWith_sub_shift, List.length_map]
+      by_cases hlen' : send.length = recv.length
+      case neg => simp [hlen']
+      simp only [hlen', ne_eq, not_true_eq_false, if_false]
       rw [List.zip_map_right,
         show List.map (Prod.map id fun x => x + (dlt r c (pmap tree np 1) - dlt r c (pmap tree np 0)))
             (List.zip (cg0 :: rest) (List.zipWith (fun x s => x - s) recv send)) =
